@@ -190,6 +190,10 @@ class ConverterToPDDLString(walkers.DagWalker):
                 )
             return float(dec)
 
+    def convert_fraction_to_str(self, frac) -> str:
+        """Returns the decimal notation of the given fraction, never in scientific notation (PDDL has no exponents)."""
+        return format(Decimal(repr(self.convert_fraction(frac))), "f")
+
     def walk_exists(self, expression, args):
         assert len(args) == 1
         vars_string_list = [
@@ -272,7 +276,7 @@ class ConverterToPDDLString(walkers.DagWalker):
     def walk_real_constant(self, expression, args):
         assert len(args) == 0
         frac = expression.constant_value()
-        return str(self.convert_fraction(frac))
+        return self.convert_fraction_to_str(frac)
 
     def walk_int_constant(self, expression, args):
         assert len(args) == 0
@@ -784,7 +788,7 @@ class PDDLWriter:
         for tm, le in self.problem.timed_effects.items():
             for e in le:
                 out.write(f"\n             ")
-                out.write(f" (at {str(converter.convert_fraction(tm.delay))}")
+                out.write(f" (at {converter.convert_fraction_to_str(tm.delay)}")
                 _write_effect(
                     e,
                     None,
